@@ -155,6 +155,7 @@ RunResult run(J const &plan) {
   std::map<std::string, std::map<std::string, std::vector<std::pair<long, double>>>> series_by_prefix;
   long last_step = -1; bool first_of_instance = true;
   std::set<std::string> errored;
+  std::map<std::string, std::set<std::string>> slept;   // per instance: variables that were not evaluated at some evaluation
   std::map<std::string, long> first_step_of, last_step_of;
   long const restart_freq = (long)sc.at("restart_freq").as_int(0);
   std::map<std::string, double> prev_val; bool have_prev = false;
@@ -174,6 +175,7 @@ RunResult run(J const &plan) {
         CvOut const *co = nullptr; for (auto const &c : cvo) if (c.name == cv->name) co = &c;
         double x = r.cv[(size_t)r.cv_off[k]];
         bool asleep = !cv->is_enabled();   // (a variable that lost its last bias is no longer evaluated — C13 finding: its columns are stale, not checked)
+        if (asleep) slept[wpre].insert(cv->name);
         row.col[cv->name] = asleep ? NAN : x; row.order.push_back(cv->name);
         if (co && co->vel) { row.col["v_" + cv->name] = asleep || std::isnan(prev_val[cv->name]) ? NAN : have_prev && !row.repeated ? wrapd(x - prev_val[cv->name], co->periodic) / ec.dt : 0.0; row.order.push_back("v_" + cv->name); }
         if (co && co->ft) { row.col["ft_" + cv->name] = asleep ? NAN : r.cv_ft[(size_t)r.cv_off[k]]; row.order.push_back("ft_" + cv->name); }
@@ -347,6 +349,8 @@ RunResult run(J const &plan) {
       std::vector<std::pair<double, double>> smp; std::vector<long> smp_rel; bool started = false, bad = false;
       for (size_t i = 0; i < sx.size(); i++) { if (std::isnan(sx[i].second) || std::isnan(sy[i].second)) { if (started) bad = true; continue; } if (!started) { started = true; continue; } smp.push_back({sx[i].second, sy[i].second}); smp_rel.push_back(sx[i].first); }
       if (bad) continue;   // (a variable that slept in the middle: its history has a hole)
+      if (slept[pre].count(c.name) || (!c.cf_with.empty() && slept[pre].count(c.cf_with))) continue;   // the library kept correlating the stale value while the variable slept
+      { bool any_nan = false; for (auto const &v : sx) if (std::isnan(v.second)) any_nan = true; for (auto const &v : sy) if (std::isnan(v.second)) any_nan = true; if (any_nan) continue; }   // the library correlates the stale values of a sleeping variable (C13 finding): nothing to compare with
       int L = c.cf_len, st = c.cf_stride;
       std::vector<double> acc((size_t)L + 1, 0.0); long frames = 0;
       // what the file holds was accumulated up to the last step at which the restart file was written
